@@ -98,8 +98,15 @@ def _custom_ramp_bp(p):
     return lambda f: level + slope * (f - f_ref)
 
 
+def _custom_steps_uint_path(p):
+    # whole-Hz centre frequencies read off an UNSIGNED integer table: f0 + step * (number of whole dt elapsed), step < 0 allowed
+    f0, step, dt = int(p['f0']), int(p['step']), float(p['dt'])
+    return lambda t: (f0 + step * np.round(np.asarray(t, dtype=float) / dt)).astype(np.uint64)
+
+
 CUSTOM = {
     'cubic_path': _custom_cubic_path,
+    'steps_uint_path': _custom_steps_uint_path,
     'cos_t': _custom_cos_t,
     'logistic_f': _custom_logistic_f,
     'ramp_bp': _custom_ramp_bp,
